@@ -7,6 +7,12 @@ from sa.index import Index
 ix = Index()
 import ast
 sites = {f.site for f in ix.all_functions()}
+# nested functions (closures): 'path::Outer.inner' - a closure that is new to the reviewed tree and called by name in its
+# enclosing function is followed like any other new helper
+for f in list(ix.all_functions()):
+    for n in ast.walk(f.node):
+        if isinstance(n, (ast.FunctionDef, ast.AsyncFunctionDef)) and n is not f.node:
+            sites.add('%s.%s' % (f.site, n.name))
 # module-level names, so that a constant introduced later can be told apart from one the specs already name
 for rel, m in ix.modules.items():
     for st in m.tree.body:
